@@ -3,12 +3,16 @@ package absnfs
 // C17 — connections are bounded, accounted, reaped when idle, and fully shut down
 // (sequential transition semantics only).
 
-import "net"
+import (
+	"net"
+	"time"
+)
 
 func init() {
 	vpRegister("VPH_C17_accounting", VPH_C17_accounting)
 	vpRegister("VPH_C17_idle", VPH_C17_idle)
 	vpRegister("VPH_C17_close", VPH_C17_close)
+	vpRegister("VPH_C17_listen_any_idle_timeout", VPH_C17_listen_any_idle_timeout)
 }
 
 // VPH_C17_accounting: a sequence of connection opens and closes with a symbolic MaxConnections.
@@ -126,4 +130,41 @@ func VPH_C17_close() {
 	var b vpBuf
 	rd := &vpRd{b: vpReplyBytes(env.call(NFSPROC3_GETATTR, b.fh(1).Bytes()))}
 	vpAssert(rd.u32() == NFSERR_STALE, "old-handle-stale-after-shutdown")
+}
+
+// VPH_C17_listen_any_idle_timeout: a server can be started (and its idle reaper set going) with any
+// positive IdleTimeout, set at construction or at run time before Listen: nothing in the start-up
+// path panics, and the one client is served. (The reaper derives its tick interval from the timeout.)
+func VPH_C17_listen_any_idle_timeout() {
+	idle := vpI64("idletimeout")
+	vpAssume(vpAnd(idle > 0, idle < 1<<50))
+	fs := vpStdTree()
+	var env *vpEnv
+	if vpBool("set-at-runtime") {
+		env = vpServer(fs, ExportOptions{})
+		env.nfs.UpdateTuningOptions(func(t *TuningOptions) { t.IdleTimeout = vpDurFrom(idle) })
+		vpReach("runtime")
+	} else {
+		env = vpServer(fs, ExportOptions{IdleTimeout: vpDurFrom(idle)})
+		vpReach("construction")
+	}
+	conn := &vpConn{in: vpClientCall(9, NFS_PROGRAM, NFS_V3, NFSPROC3_NULL, nil), remote: "127.0.0.1:800"}
+	l := &vpListener{addr: "127.0.0.1:2049", conns: []*vpConn{conn}, done: make(chan struct{})}
+	vpListeners = map[string]*vpListener{"": l}
+	defer func() { vpListeners = nil }()
+	s, err := NewServer(ServerOptions{Name: "vp", Port: 2049, Hostname: "localhost", UseRecordMarking: true})
+	vpAssert(err == nil, "server-created")
+	s.SetHandler(env.nfs)
+	vpAssert(s.Listen() == nil, "listen-starts")
+	var closed bool
+	var out []byte
+	for i := 0; i < 500; i++ {
+		if closed, out = conn.served(); closed {
+			break
+		}
+		time.Sleep(10 * time.Millisecond)
+	}
+	replies, ok := vpSplitRecords(out)
+	vpAssert(vpAnd(closed, vpAnd(ok, len(replies) == 1)), "client-served")
+	l.Close()
 }
